@@ -326,8 +326,21 @@ fn c12_sweep(payload: &[u8], io: &mut WorkerIo) -> Vec<u8> {
                         // a second entry is read through the same handle
                         let other = &keys[(ei + 1) % keys.len()];
                         let r2 = if r.is_ok() && other != k { match guard(|| DbXxx::get(&mut m, &other[..])) { Out::Ok(g) if g == model.get(other).cloned() => Ok(()), o => Err(format!("afterwards get of another key gives {:?}", o.failed())) } } else { Ok(()) };
+                        // and the updated entry itself, through the same handle
+                        let r3 = if r.is_ok() { match guard(|| DbXxx::get(&mut m, &k[..])) { Out::Ok(g) if g == model.get(k).cloned() => Ok(()), Out::Ok(_) => Err("afterwards get of the updated key returns a wrong value".to_string()), o => Err(format!("afterwards get of the updated key {}", o.failed().unwrap_or_default())) } } else { Ok(()) };
                         let _ = guard_plain(move || { drop(m); drop(db); });
-                        r.and(r2)
+                        // and once more after a re-open
+                        let r4 = if r.is_ok() && r3.is_ok() {
+                            match open_map::<T>(&dir, MAP_NAME, &p) {
+                                Out::Ok((db, mut m)) => {
+                                    let g = guard(|| DbXxx::get(&mut m, &k[..]));
+                                    let _ = guard_plain(move || { drop(m); drop(db); });
+                                    match g { Out::Ok(g) if g == model.get(k).cloned() => Ok(()), Out::Ok(_) => Err("after a re-open get of the updated key returns a wrong value".to_string()), o => Err(format!("after a re-open get of the updated key {}", o.failed().unwrap_or_default())) }
+                                }
+                                o => Err(format!("re-open {}", o.failed().unwrap_or_default())),
+                            }
+                        } else { Ok(()) };
+                        r.and(r2).and(r3).and(r4)
                     }
                     o => Err(format!("open {}", o.failed().unwrap_or_default())),
                 }
